@@ -1030,6 +1030,8 @@ def describe(prop):
             "closed-form references: numpy.linalg.lstsq / scipy.optimize.lsq_linear(bvls) for shapes linear in their own parameters",
             "weights: a result optimal under any of the readings sum((f-y)^2/w^2), sum(|w|(f-y)^2), sum(w^2 (f-y)^2) is accepted (docstring and code disagree; property does not choose)",
             "nonlinear shapes: only bounds/constraints and local optimality are demanded; a fault-free optimiser failure makes the run inconclusive",
+            'one known finding (known_findings.json): constrained (SLSQP) fits whose data or least-squares solution lie >= 1e3 times the start parameters away; its violations carry the site slsqp-constrained-far-from-start and do not fail the check',
+            'not judged: a conditioner of alpha3 below 0.05 on the support, a runaway parameter (> 1e4 x start, still improving away from zero, unbounded) of a nonlinear shape, a fitted asymdecrease3 with its pole inside the support',
         ],
-        "probes": ["deferred-fit-taken", "refit-through-callback", "refit-round", "continued-on-deep-copy"],
+        "probes": ["deferred-fit-taken", "refit-through-callback", "refit-round", "continued-on-deep-copy", "bounds-edited-between-fits"],
     }
